@@ -280,6 +280,68 @@ theorem inv_step (post : Store Path Key Page → Result) (st : St Path Key Page 
   | create p c => exact hmut _ hc
   | delete p => exact hmut _ hc
 
+/-! ### the weaker obligation (re-parse a reader only if what it read changed) -/
+
+omit owns in
+theorem spec_stable_ch (e : Env Path Content) (op : Op Path Content) (R : List Path)
+    (hc : CoversCh P srcs e op R) (k : Key) (hk : owner k ∉ R) :
+    spec P owner srcs (op.env e) k = spec P owner srcs e k := by
+  by_cases hs : owner k ∈ srcs
+  · have hnot : ∀ q, op.touched = some q →
+        ¬ (owner k = q ∨ ((e (owner k)).isSome = true ∧ q ∈ P.reads e (owner k) ∧ op.env e q ≠ e q)) :=
+      fun q hq hor => hk (hc _ hs q hq hor)
+    have hself : op.env e (owner k) = e (owner k) := by
+      apply Op.env_other
+      intro ht
+      exact hnot _ ht (Or.inl rfl)
+    unfold spec
+    rw [hself]
+    by_cases hex : (e (owner k)).isSome = true
+    · have hp : P.parse e (owner k) = P.parse (op.env e) (owner k) := by
+        apply P.footprint
+        intro f hf
+        symm
+        by_cases ht : op.touched = some f
+        · by_cases hch : op.env e f = e f
+          · exact hch
+          · exact absurd (Or.inr ⟨hex, hf, hch⟩) (hnot _ ht)
+        · exact Op.env_other op e f ht
+      rw [hp]
+    · simp [hex]
+  · unfold spec
+    simp [hs]
+
+theorem good_step_store_ch (e : Env Path Content) (s : Store Path Key Page) (op : Op Path Content)
+    (R : List Path) (hg : Good P owner srcs e s) (hc : CoversCh P srcs e op R) :
+    Good P owner srcs (op.env e) (R.foldl (refresh P srcs (op.env e)) s) := by
+  intro k
+  rw [refreshAll_apply P owner srcs owns (op.env e) k R s (hg.wellOwned P owner srcs owns)]
+  split
+  · rfl
+  · rename_i hk
+    rw [hg k, spec_stable_ch P owner srcs e op R hc k hk]
+
+theorem inv_step_ch (post : Store Path Key Page → Result) (st : St Path Key Page Content Result)
+    (x : Op Path Content × List Path) (hi : Inv P owner srcs post st)
+    (hc : CoversCh P srcs st.env x.1 x.2) : Inv P owner srcs post (step P srcs post st x) := by
+  obtain ⟨op, R⟩ := x
+  have hmut : ∀ (o : Op Path Content), CoversCh P srcs st.env o R →
+      Inv P owner srcs post
+        { env := o.env st.env, store := R.foldl (refresh P srcs (o.env st.env)) st.store,
+          cache := st.cache, dirty := true } := by
+    intro o ho
+    exact ⟨good_step_store_ch P owner srcs owns st.env st.store o R hi.1 ho, fun h => by simp at h⟩
+  cases op with
+  | postprocess =>
+    unfold step
+    simp only
+    split
+    · exact ⟨hi.1, fun _ => rfl⟩
+    · exact hi
+  | update p c => exact hmut _ hc
+  | create p c => exact hmut _ hc
+  | delete p => exact hmut _ hc
+
 theorem step_env (post : Store Path Key Page → Result) (st : St Path Key Page Content Result)
     (x : Op Path Content × List Path) : (step P srcs post st x).env = x.1.env st.env := by
   obtain ⟨op, R⟩ := x
